@@ -17,7 +17,9 @@ for P in props:
                     shutil.copy(os.path.join(src, f), os.path.join(dst, f))
         if not os.path.exists(os.path.join(dst, "patch.diff")):
             continue
-        r = subprocess.run(["python3", "/verif/tools/try_seed.py", dst, P, "--suite"], capture_output=True, text=True)
+        CHECK = {"C03-4": "C13"}  # a regression written against one property may live in another check's domain
+        chk = CHECK.get(os.path.basename(dst), P)
+        r = subprocess.run(["python3", "/verif/tools/try_seed.py", dst, chk, "--suite"], capture_output=True, text=True)
         try:
             d = json.loads(r.stdout)
         except Exception:
@@ -27,13 +29,13 @@ for P in props:
         if os.path.exists(os.path.join(dst, "meta.json")):
             old = json.load(open(os.path.join(dst, "meta.json")))
         meta = {
-            "property": P,
+            "property": P, "caught_by_check": chk,
             "origin": "fresh sub-agent given only the property's statement and quantifier text and its own scratch worktree (tools/seed_prompt_template.txt)",
             "needs_to_manifest": old.get("needs_to_manifest", ""),
             "what_was_run": ["cd <scratch worktree of /repo HEAD> && /venv/bin/python demo.py  -> exit %s (clean)" % d.get("demo_clean"),
                              "git apply patch.diff; /venv/bin/python demo.py -> exit %s (patched): %s" % (d.get("demo_patched"), d.get("demo_msg", "")),
                              "pinned test-suite on the patched worktree: stable_pass tests not passing = %r" % (d.get("suite_missing"),),
-                             "VERIF_REPO=<patched worktree> ./check %s (quick tier) -> exit %s in %ss" % (P, d.get("check_exit"), d.get("check_wall_s"))],
+                             "VERIF_REPO=<patched worktree> ./check %s (quick tier) -> exit %s in %ss" % (chk, d.get("check_exit"), d.get("check_wall_s"))],
             "confirmed": bool(d.get("demo_clean") == 0 and d.get("demo_patched") == 1 and d.get("suite_missing") == []),
             "verdict": d.get("verdict"),
             "first_signatures": d.get("signatures", []),
